@@ -150,7 +150,8 @@ static void common_post(Info *info, int64_t alpha, int64_t beta, int64_t res, in
     if (!tt_found || ((int64_t)TT_ENTRY.f3.f0 >= -VALUE_MATE && (int64_t)TT_ENTRY.f3.f0 <= VALUE_MATE))
       PROP(res >= -VALUE_MATE && res <= VALUE_MATE, "C08 a node whose children and evaluation stay in range returns a value in [-VALUE_MATE, VALUE_MATE], never +-infinity");
     if (n_inserts > 0) PROP(in_list(inserted_move), "C05 only moves of the node are stored in the transposition table");
-    if (ce_isroot && ce_depth >= 1) PROP(info->INFO_pv_list_length > 0 && in_list(info->INFO_pv_list.f0[0]), "C09 the root's PV head (the bestmove) is one of the root moves, i.e. of the searchmoves when given, whatever the transposition table holds");
+    /* iter_search consumes the root PV only when the value is strictly inside the window it searched with (otherwise it re-searches or stops) */
+    if (ce_isroot && ce_depth >= 1 && res > alpha && res < beta) PROP(info->INFO_pv_list_length > 0 && in_list(info->INFO_pv_list.f0[0]), "C09 the root's PV head (the bestmove) is one of the root moves, i.e. of the searchmoves when given, whatever the transposition table holds");
     /* induction step for mate DISTANCES: a mate score returned by the node is one ply further than a mate score returned by one of the
        children searched after a move of the node, unless it is a bound of the incoming window, the table's score, the node's own
        mate (no legal moves) or the value of the quiescence search the node was handed to.  (The evaluation stays outside the mate range.) */
